@@ -145,6 +145,8 @@ def run(spec, out):
             chosen.append("dot-third-occurrence")
         if case.op == "roll":
             chosen.append("roll-shift-length")
+        if case.family == "update" and rng.random() < 0.3:
+            chosen.append("update-zero-size-syntax")
         if case.kwargs and rng.random() < 0.5:
             chosen.append("kw-float-after-valid-call")
         for edit in chosen:
@@ -287,6 +289,12 @@ def run(spec, out):
                     tensors.append(np.ones((case.sizes[nm], 2)))
                     outputs[0].append(Ax("zq"))
                 proof = "rule:contracted-axis-in-exactly-two-inputs"
+            elif edit == "update-zero-size-syntax":
+                # a syntactically invalid description stays invalid when a coordinate/update tensor happens to be empty
+                k_ = rng.randrange(1, len(tensors))
+                tensors[k_] = np.zeros((0,) + tuple(tensors[k_].shape[1:]), dtype=tensors[k_].dtype)
+                desc = base_desc + rng.choice([" (", " ]", " -> ->", ")("])
+                proof = "syntax"
             elif edit == "roll-shift-length":
                 # one shift per rolled dimension (or a single one for all): a sequence of another length is rejected
                 from ..gen.expr import elementary_dims
